@@ -970,6 +970,12 @@ def check_c18(A: Analysis, col: Collector):
         for h in t.handlers:
             marks = [a_ for st in h.body for a_ in ast.walk(st) if isinstance(a_, ast.Assign) and any(isinstance(tg, ast.Attribute) and tg.attr == "_errored" for tg in a_.targets) and isinstance(a_.value, ast.Constant) and a_.value.value is True]
             reraises = bool(h.body) and isinstance(h.body[-1], ast.Raise)
+            if not marks:
+                # ... or through a method of the job that sets the flag
+                for c_ in [k for st in h.body for k in ast.walk(st) if isinstance(k, ast.Call) and isinstance(k.func, ast.Attribute)]:
+                    for t_ in A.rs.resolve_call(c_, ea).repo_targets:
+                        if isinstance(t_, FuncInfo) and any(isinstance(a_, ast.Assign) and any(isinstance(tg, ast.Attribute) and tg.attr == "_errored" for tg in a_.targets) and isinstance(a_.value, ast.Constant) and a_.value.value is True for a_ in walk_own(t_.node)):
+                            marks.append(c_)
             if marks:
                 col.ok("C18.failed-future", "a job whose future raised is marked errored in the handler, so it leaves the queued set even if it left no result behind", A.loc(marks[0]))
             elif reraises:
